@@ -2,24 +2,33 @@
 EXTENDS Handshake, Json
 \* Case generator: the two decision functions on every argument combination.
 B == {TRUE, FALSE}
+OverLens == {"1073741824", "4294967296", "4294967312", "9223372036854775807", "9223372036854775808", "18446744073709551615"}
 G(same) == IF same THEN "g1" ELSE "g2"
 AcceptCases ==
-  {[role |-> "accept", lv |-> l, rv |-> r, same_genesis |-> sg, nonce_in_ring |-> nr, extra |-> x,
+  {[role |-> "accept", lv |-> l, rv |-> r, same_genesis |-> sg, nonce_in_ring |-> nr, extra |-> x, over |-> "",
     expect |-> AcceptOutcome(l, "g1", IF nr THEN <<5, 7>> ELSE <<5>>,
-                             [version |-> r, genesis |-> G(sg), nonce |-> 7, extra |-> x])]
+                             [version |-> r, genesis |-> G(sg), nonce |-> 7, extra |-> x, over |-> ""])]
      : l \in Versions, r \in Versions, sg \in B, nr \in B, x \in {0}}
   \cup \* a Hand frame whose body is longer than the message (1 byte, up to the 4 x 128 limit)
-  {[role |-> "accept", lv |-> 1000, rv |-> r, same_genesis |-> TRUE, nonce_in_ring |-> FALSE, extra |-> x,
-    expect |-> AcceptOutcome(1000, "g1", <<5>>, [version |-> r, genesis |-> "g1", nonce |-> 7, extra |-> x])]
+  {[role |-> "accept", lv |-> 1000, rv |-> r, same_genesis |-> TRUE, nonce_in_ring |-> FALSE, extra |-> x, over |-> "",
+    expect |-> AcceptOutcome(1000, "g1", <<5>>, [version |-> r, genesis |-> "g1", nonce |-> 7, extra |-> x, over |-> ""])]
      : r \in {1, 1000}, x \in {1, 300}}
+  \cup \* a Hand header announcing more than the limit of its type (4 x 128), up to the end of the u64 range
+  {[role |-> "accept", lv |-> 1000, rv |-> 1000, same_genesis |-> TRUE, nonce_in_ring |-> FALSE, extra |-> 0, over |-> w,
+    expect |-> AcceptOutcome(1000, "g1", <<5>>, [version |-> 1000, genesis |-> "g1", nonce |-> 7, extra |-> 0, over |-> w])]
+     : w \in {"513"} \cup OverLens}
 InitiateCases ==
-  {[role |-> "initiate", lv |-> l, rv |-> r, same_genesis |-> sg, nonce_in_ring |-> FALSE, extra |-> 0,
-    expect |-> InitiateOutcome(l, "g1", [version |-> r, genesis |-> G(sg), nonce |-> 0, extra |-> 0])]
+  {[role |-> "initiate", lv |-> l, rv |-> r, same_genesis |-> sg, nonce_in_ring |-> FALSE, extra |-> 0, over |-> "",
+    expect |-> InitiateOutcome(l, "g1", [version |-> r, genesis |-> G(sg), nonce |-> 0, extra |-> 0, over |-> ""])]
      : l \in Versions, r \in Versions, sg \in B}
   \cup
-  {[role |-> "initiate", lv |-> 1000, rv |-> r, same_genesis |-> TRUE, nonce_in_ring |-> FALSE, extra |-> x,
-    expect |-> InitiateOutcome(1000, "g1", [version |-> r, genesis |-> "g1", nonce |-> 0, extra |-> x])]
+  {[role |-> "initiate", lv |-> 1000, rv |-> r, same_genesis |-> TRUE, nonce_in_ring |-> FALSE, extra |-> x, over |-> "",
+    expect |-> InitiateOutcome(1000, "g1", [version |-> r, genesis |-> "g1", nonce |-> 0, extra |-> x, over |-> ""])]
      : r \in {1, 1000}, x \in {1, 250}}
+  \cup \* the same for the Shake (4 x 88)
+  {[role |-> "initiate", lv |-> 1000, rv |-> 1000, same_genesis |-> TRUE, nonce_in_ring |-> FALSE, extra |-> 0, over |-> w,
+    expect |-> InitiateOutcome(1000, "g1", [version |-> 1000, genesis |-> "g1", nonce |-> 0, extra |-> 0, over |-> w])]
+     : w \in {"353"} \cup OverLens}
 EmitInit == Init /\ ver = [n \in Nodes |-> 1000] /\ gen = [n \in Nodes |-> "g1"]
 EmitSpec == EmitInit /\ [][FALSE]_vars
 Emit == \A x \in AcceptCases \cup InitiateCases : PrintT(<<"HSCASE", ToJson(x)>>)
